@@ -391,7 +391,7 @@ pub fn run(cx: &mut Ctx) {
         cp = hi + 1;
     }
     // ---- random
-    let n = cx.a.n(60_000, 1_500_000);
+    let n = cx.a.n(200_000, 2_000_000);
     let quick = cx.a.quick();
     for _ in 0..n {
         cx.case("random", |c| {
